@@ -293,7 +293,7 @@ let judge_ms (ins : string list) (outs : string list) : verdict =
         (match List.find_opt (fun (_, _, m') -> key_eqb (mkey m) (mkey m')) r with
          | Some (j', o', _) -> Some (j, o, j', o')
          | None -> dup r) in
-  match dup msgs with
+  match (if keys_distinctb (List.map mkey ms) then None else dup msgs) with
   | Some (j, o, j', o') ->
       if o.cid <> o'.cid then
         VPropfail ("message_id_truncated",
@@ -310,17 +310,19 @@ let judge_ms (ins : string list) (outs : string list) : verdict =
     List.iter (fun (j, _, m) ->
         let l = List.filter (keyb (mkey m)) frames in
         if not (msg_okb m l) then begin
+          (* which conjunct of msg_okb fails (C19_message_oracle_parts) *)
           let np = List.length m.m_pseudo and nh = List.length m.m_hdrs in
           let rec firstn k l = if k = 0 then [] else match l with [] -> [] | x :: t -> x :: firstn (k - 1) t in
           let rec skipn k l = if k = 0 then l else match l with [] -> [] | _ :: t -> skipn (k - 1) t in
           let p = firstn np l and h = firstn nh (skipn np l) and d = skipn nh (skipn np l) in
           let wp = hframes m.m_id m.m_mt m.m_pseudo and wh = hframes m.m_id m.m_mt m.m_hdrs in
           let wd = body_log m.m_id m.m_mt m.m_reads in
-          if not (frames_eq p wp) then fail "pseudo_headers" (Printf.sprintf "m%d: %s" j (diff_detail wp p))
-          else if not (perm_b frame_eqb h wh) then
+          if not (msg_pseudo_okb m l) then fail "pseudo_headers" (Printf.sprintf "m%d: %s" j (diff_detail wp p))
+          else if not (msg_headers_okb m l) then
             fail "headers" (Printf.sprintf "m%d: header frames are not the message's header multiset: want %d got %d; %s" j
                               (List.length wh) (List.length h) (diff_detail wh h))
-          else fail "data_frames" (Printf.sprintf "m%d: want %d data frames, got %d; %s" j (List.length wd) (List.length d) (diff_detail wd d))
+          else if not (msg_data_okb m l) then
+            fail "data_frames" (Printf.sprintf "m%d: want %d data frames, got %d; %s" j (List.length wd) (List.length d) (diff_detail wd d))
         end) msgs;
     fail "frames_per_message" "oracle failed"
   end;
